@@ -250,6 +250,13 @@ Definition add_log (w : world) (evs : list pevent) : world :=
 (* submissions created by one step = the EvSubmit events it appended *)
 Definition new_submissions (w w1 : world) : list Z := submitted (skipn (length (w_log w)) (w_log w1)).
 
+(* the tail of JobSubmitter._handle_completion for a submission with pipeline_stage_num = k *)
+Definition complete_world (c : consts) (w0 : world) (k res : Z) (e : env) : world :=
+  let nxt := OpNext (k + c_hand c) (Some res) e in
+  if c_after_mark c
+  then snd (step c (add_log w0 [EvMarkComplete k]) nxt)
+  else add_log (snd (step c w0 nxt)) [EvMarkComplete k].
+
 Definition sys_step (c : consts) (y : sys) (o : sys_op) : option sys :=
   if negb (c05_enabled y o) then None else
   match o with
@@ -259,10 +266,7 @@ Definition sys_step (c : consts) (y : sys) (o : sys_op) : option sys :=
             y_completed := y_completed y |}
   | SysComplete k res e =>
     let w0 := y_world y in
-    let nxt := OpNext (k + c_hand c) (Some res) e in
-    let w2 := if c_after_mark c
-              then snd (step c (add_log w0 [EvMarkComplete k]) nxt)
-              else add_log (snd (step c w0 nxt)) [EvMarkComplete k] in
+    let w2 := complete_world c w0 k res e in
     Some {| y_world := w2;
             y_outstanding := remove1 k (y_outstanding y) ++ new_submissions w0 w2;
             y_completed := k :: y_completed y |}
@@ -276,6 +280,23 @@ Fixpoint sys_run (c : consts) (y : sys) (ops : list sys_op) : option sys :=
   | [] => Some y
   | o :: t => match sys_step c y o with None => None | Some y1 => sys_run c y1 t end
   end.
+
+(* ---- specification vocabulary of the system-level theorems ----
+   what must have happened before an event for it to be justified: a stage j > 1 is configured /
+   its config read / submitted / made current only after stage j-1 was submitted and that submission
+   was marked complete; a submission is marked complete only if it exists; resubmission only of a
+   completed submission. *)
+Definition ev_justified (pre : list pevent) (ev : pevent) : Prop :=
+  match ev with
+  | EvAutoConfig j | EvReadConfig j | EvSubmit j =>
+      j = 1 \/ (In (EvMarkComplete (j - 1)) pre /\ In (EvSubmit (j - 1)) pre)
+  | EvAdvance k _ => In (EvMarkComplete (k - 1)) pre /\ In (EvSubmit (k - 1)) pre
+  | EvMarkComplete k => In (EvSubmit k) pre
+  | EvResubmit k => In (EvMarkComplete k) pre
+  end.
+
+Definition log_ordered (L : list pevent) : Prop :=
+  forall pre ev post, L = pre ++ ev :: post -> ev_justified pre ev.
 
 (* ---- decidable equalities used by the correspondence ---- *)
 Definition pevent_eqb (a b : pevent) : bool :=
